@@ -322,3 +322,18 @@ func excludeKnown(o Op, col *Collector) Op {
 	}
 	return o
 }
+
+// caseLimiter bounds the number of (slow) application-level cases of one test independently of
+// -rapid.checks, which is shared by all tests of a property: VERIF_A_LIMIT cases per test, or
+// def when unset (0 = unlimited). Cases beyond the limit return immediately and are not counted.
+func caseLimiter(def int) func() bool {
+	limit := envInt("VERIF_A_LIMIT", def)
+	n := 0
+	return func() bool {
+		if limit <= 0 {
+			return true
+		}
+		n++
+		return n <= limit
+	}
+}
